@@ -3,7 +3,7 @@
    Theorems about the models of KData.from_file (Model/KLoad.v) and of the trajectory calculators (Model/TrajCalc.v); the
    models are tied to /repo/src/mrpro/data on every run by the correspondence families of harness/props/C14.py, which
    load real ISMRMRD files with the implementation and compare the id arrays exactly with `load` under vm_compute. *)
-From MrVerif Require Import Base.Prelude Model.KLoad Model.TrajCalc Proofs.KLoadProofs Proofs.TrajCalcProofs.
+From MrVerif Require Import Base.Prelude Model.KLoad Model.TrajCalc Proofs.KLoadProofs Proofs.KLoadGridProofs Proofs.TrajCalcProofs.
 From Coq Require Import Permutation Sorted QArith Qabs Reals.
 Local Open Scope Z_scope.
 
@@ -30,6 +30,23 @@ Theorem C14_position : forall h l p a, NoDup (map labels (kept h l)) -> nth_erro
   length (filter (fun b => negb (acq_leb a b)) (kept h l)) = p.
 Proof. exact load_position. Qed.
 Print Assumptions C14_position.
+
+(* a complete label grid lands at exactly (i-th other, i-th k2, i-th k1): if the kept acquisitions carry every combination of
+   the other-label tuples `others` (strictly increasing in the sort order, user7 most significant), the k2 values `k2s` and the
+   k1 values `k1s` (strictly increasing) exactly once, in any file order, then the data are reshaped to
+   (|others|, |k2s|, |k1s|) and the readout at (o, i2, i1) has the i1-th k1, the i2-th k2 and the o-th other tuple *)
+Theorem C14_grid_position : forall h l others k2s k1s n,
+  StronglySorted Z.lt k1s -> StronglySorted Z.lt k2s ->
+  StronglySorted (fun a b => lex_leb (rev a) (rev b) = true /\ a <> b) others -> Forall (fun o => length o = n) others ->
+  others <> [] -> k2s <> [] -> k1s <> [] ->
+  Permutation (map labels (kept h l)) (flat_map (fun o => flat_map (fun k2 => map (fun k1 => k1 :: k2 :: o) k1s) k2s) others) ->
+  let no := length others in let n2 := length k2s in let n1 := length k1s in
+  (exists d i t, load h l = inr ((Z.of_nat no, Z.of_nat n2, Z.of_nat n1), d, i, t)) /\
+  forall o i2 i1, (o < no)%nat -> (i2 < n2)%nat -> (i1 < n1)%nat ->
+    exists a, nth_error (load_sorted h l) ((o * n2 + i2) * n1 + i1) = Some a /\
+              labels a = nth i1 k1s 0 :: nth i2 k2s 0 :: nth o others [].
+Proof. exact load_grid. Qed.
+Print Assumptions C14_grid_position.
 
 (* the order of the acquisitions in the file is irrelevant (label tuples of kept acquisitions pairwise distinct) *)
 Theorem C14_order_independent : forall h l l', Permutation l l' -> NoDup (map labels (kept h l)) -> load h l = load h l'.
@@ -69,6 +86,13 @@ Theorem C14_flag_filter : forall n, In n (zrange 65) -> n <> 0 ->
   is_image_flags (flag_mask n) = negb (existsb (Z.eqb n) [19; 20; 23; 24; 26; 27; 30; 31]).
 Proof. exact single_flag_rejected. Qed.
 Print Assumptions C14_flag_filter.
+
+(* the tables that the translator regenerates from enums.py / acq_filters.py / KData.py on every run (obligations gen_*_ok in
+   Gen/kload_gen.v) are the ones the model computes with: OTHER_LABELS = KDIM_SORT_LABELS without the leading k1, k2; the
+   default ignore mask is the union of the eight named flags; the reversal / noise bits are flags 22 / 19 *)
+Theorem C14_tables_consistent : TablesProof.tables_statement.
+Proof. exact TablesProof.tables_consistent. Qed.
+Print Assumptions C14_tables_consistent.
 
 (* ---- trajectory calculators ---- *)
 Theorem C14_kfreq_centre : forall r j, kfreq r j = 0 <-> j = (if is_reversed r then r_n r - 1 - r_center r else r_center r).
